@@ -66,7 +66,7 @@ func doWalk(prop string, c *KeyCase) (*walk, *Violation) {
 	if len(w.Run.Steps) != len(c.Steps) {
 		return w, violation(prop, "harness", "", "internal: %d results for %d steps", len(w.Run.Steps), len(c.Steps))
 	}
-	down := map[uint16]bool{}
+	down := map[PK]bool{}
 	axisRest := map[uint16]bool{}
 	axisInfo := map[uint16]AxisDef{}
 	for _, m := range c.D.Mappings {
@@ -81,9 +81,9 @@ func doWalk(prop string, c *KeyCase) (*walk, *Violation) {
 		case "key":
 			ws.Model = w.Model.Key(s.Sub, s.Code, s.Val)
 			if s.Val == 1 {
-				down[s.Code] = true
+				down[PK{s.Sub, s.Code}] = true
 			} else {
-				delete(down, s.Code)
+				delete(down, PK{s.Sub, s.Code})
 			}
 		case "abs":
 			a := axisInfo[s.Code]
@@ -198,7 +198,7 @@ func checkC02(c KeyCase) (bool, *Violation) {
 		registered bool
 		stateAt    ModelState
 	}
-	pins := map[uint16]pinned{}
+	pins := map[PK]pinned{}
 	nontrivial := false
 	for i := range w.Steps {
 		ws := &w.Steps[i]
@@ -216,20 +216,20 @@ func checkC02(c KeyCase) (bool, *Violation) {
 				p.ch, p.pitch, p.registered = int(ons[0][0]&0x0f), int(ons[0][1]), true
 			} else if len(ons) == 0 && !ws.Model.OutOfRange {
 				// suppressed by the collision mode (no_repeat with another holder): the model says what was registered
-				hn := w.Model.perKeyAt(i, w, ws.Step.Code)
+				hn := w.Model.perKeyAt(i, w, PK{ws.Step.Sub, ws.Step.Code})
 				if hn != nil {
 					p.ch, p.pitch, p.registered = hn.Ch, hn.Pitch, true
 				}
 			} else if len(ons) > 1 {
 				return true, violation("C02", "press-multiple-note-on", "", "%s emitted %s", describeStep(i, ws), fmtMsgs(out))
 			}
-			pins[ws.Step.Code] = p
+			pins[PK{ws.Step.Sub, ws.Step.Code}] = p
 		case "note-release", "ignored":
 			if ws.Step.T != "key" || ws.Step.Val != 0 {
 				break
 			}
-			p, ok := pins[ws.Step.Code]
-			delete(pins, ws.Step.Code)
+			p, ok := pins[PK{ws.Step.Sub, ws.Step.Code}]
+			delete(pins, PK{ws.Step.Sub, ws.Step.Code})
 			offs := 0
 			for _, m := range out {
 				if isNoteOn(m) {
@@ -279,7 +279,7 @@ func checkC02(c KeyCase) (bool, *Violation) {
 }
 
 // perKeyAt: what the model registered for the key pressed at step i (nil if nothing).
-func (m *Model) perKeyAt(i int, w *walk, code uint16) *heldNote {
+func (m *Model) perKeyAt(i int, w *walk, code PK) *heldNote {
 	// replay the model up to and including step i
 	mm := NewModel(w.Case.D)
 	for j := 0; j <= i; j++ {
@@ -535,7 +535,7 @@ func checkC13(c C13Case) (bool, *Violation) {
 	if v != nil {
 		return false, v
 	}
-	heldAtPanic := map[uint16]bool{}
+	heldAtPanic := map[PK]bool{}
 	nontrivialHeld, laterSamePitch := false, false
 	panicSeen := false
 	heldPitches := map[heldNote]bool{}
@@ -576,9 +576,9 @@ func checkC13(c C13Case) (bool, *Violation) {
 			if panicSeen && ws.Model.Kind == "note-press" {
 				laterSamePitch = true // a press after the panic (counted as the non-trivial continuation)
 			}
-			isHeldRelease := ws.Step.T == "key" && ws.Step.Val == 0 && heldAtPanic[ws.Step.Code]
+			isHeldRelease := ws.Step.T == "key" && ws.Step.Val == 0 && heldAtPanic[PK{ws.Step.Sub, ws.Step.Code}]
 			if isHeldRelease {
-				delete(heldAtPanic, ws.Step.Code)
+				delete(heldAtPanic, PK{ws.Step.Sub, ws.Step.Code})
 				if !same && len(out) != 0 {
 					return true, violation("C13", "held-key-release", c.D.Mode,
 						"%s: key was held across the panic; its release emitted %s, without the panic it emits %s (at most that redundant Note Off is allowed)",
@@ -644,7 +644,7 @@ func prevState(w *walk, i int) interface{} {
 }
 
 // perKeySnapshot: the model's held note keys just before step i.
-func (m *Model) perKeySnapshot(i int, w *walk) map[uint16]heldNote {
+func (m *Model) perKeySnapshot(i int, w *walk) map[PK]heldNote {
 	mm := NewModel(w.Case.D)
 	for j := 0; j < i; j++ {
 		s := w.Case.Steps[j]
@@ -652,7 +652,7 @@ func (m *Model) perKeySnapshot(i int, w *walk) map[uint16]heldNote {
 			mm.Key(s.Sub, s.Code, s.Val)
 		}
 	}
-	out := map[uint16]heldNote{}
+	out := map[PK]heldNote{}
 	for k, v := range mm.perKey {
 		out[k] = v
 	}
